@@ -66,7 +66,7 @@ class CommutativeSwapRule(BaseRule):
                 return False
 
             # 8y^4 won't commute to y^4 * 8
-            if isinstance(node.right, PowerExpression):
+            if left_const and isinstance(node.right, PowerExpression):
                 right_left_var = isinstance(node.right.left, VariableExpression)
                 right_right_const = isinstance(node.right.right, ConstantExpression)
                 if right_left_var and right_right_const:
